@@ -3,6 +3,6 @@ import Biogo.Model.Filter
 namespace Biogo.Generated.FilterFacts
 
 /-- the retirement rule of align/pals/filter/filter.go as parsed from the source -/
-def rule : Biogo.Filter.Rule := { retireSubMaxError := true, flushFromLastTick := true }
+def rule : Biogo.Filter.Rule := { retireSubMaxError := true, flushFromLastTick := true, tickByPosition := true }
 
 end Biogo.Generated.FilterFacts
